@@ -275,3 +275,43 @@ func generatedNoPackageState(c *Ctx, rule string) {
 		}
 	}
 }
+
+// generatedCSSSinks: C05 — every write to the CSS builder in committed generated code is a string literal
+// (constant property) or string(templ.SanitizeCSS(<literal name>, <expr>)).
+func generatedCSSSinks(c *Ctx, rule string) {
+	n := 0
+	for _, gf := range c.generatedFiles() {
+		bad := 0
+		has := false
+		ast.Inspect(gf.file, func(x ast.Node) bool {
+			call, ok := x.(*ast.CallExpr)
+			if !ok || len(call.Args) != 1 {
+				return true
+			}
+			se, ok := call.Fun.(*ast.SelectorExpr)
+			if !ok || se.Sel.Name != "WriteString" || !strings.HasSuffix(types.ExprString(se.X), "_CSSBuilder") {
+				return true
+			}
+			has = true
+			n++
+			arg := ast.Unparen(call.Args[0])
+			if allStringLits(arg) {
+				return true
+			}
+			if conv, ok := arg.(*ast.CallExpr); ok && types.ExprString(conv.Fun) == "string" && len(conv.Args) == 1 {
+				if sc, ok := conv.Args[0].(*ast.CallExpr); ok && types.ExprString(sc.Fun) == "templ.SanitizeCSS" && len(sc.Args) == 2 {
+					if bl, ok := sc.Args[0].(*ast.BasicLit); ok && bl.Kind == token.STRING {
+						return true
+					}
+				}
+			}
+			bad++
+			c.viol(rule, gf.rel+"|"+normGenVars(types.ExprString(call.Fun)), positionIn(gf, call.Pos()), "committed generated code writes a dynamic value into a CSS class body without templ.SanitizeCSS: "+types.ExprString(call))
+			return true
+		})
+		if has && bad == 0 {
+			c.ok(rule, gf.rel, gf.rel, "every CSS builder write is a literal or sanitised")
+		}
+	}
+	c.count("generated_css_builder_writes", n)
+}
